@@ -881,7 +881,11 @@ fn enabled_c17(w: &RouterWorld, cfg: &Cfg, v: &mut Vec<(Act, u8)>) {
     let members: &[u8] = if matches!(cfg.variant, 2 | 4) { &[1, 2] } else { &[1, 2, 3] };
     for &c in members {
         if live(w, c) {
-            let q = if matches!(cfg.variant, 1 | 4) { 1 } else { c % 2 };
+            let q = match cfg.variant {
+                1 | 4 => 1,
+                5 => 2,
+                _ => c % 2,
+            };
             // joining twice (a plain re-subscribe) is legal
             v.push((Act::Sub { c, f: 0, qos: q }, 0));
             if active_sub(w, c, &cfg.filters[0]) {
@@ -904,7 +908,7 @@ fn enabled_c17(w: &RouterWorld, cfg: &Cfg, v: &mut Vec<(Act, u8)>) {
             }
             if !w.manual {
                 v.push((Act::DiscPkt { c }, 0));
-                if cfg.variant == 4 {
+                if matches!(cfg.variant, 4 | 5) {
                     v.push((Act::Drop { c }, 0));
                 }
             }
